@@ -276,11 +276,75 @@ def _it_skip(ex, c, a, d):
 
 def _it_zip(ex, c, a, d):
     from .exec import ENV_PASS
+    from .exec import ListV
     x, y = deref(ex, a[0]), deref(ex, a[1])
+    if isinstance(y, ListV):          # zip(IntoIterator): a slice / vec reference iterates by reference, an owned vec by value
+        y = AggV((y, IntV(0, "usize")), "ListIterRef" if isinstance(a[1], RefV) else "ListIter")
     if not _is_it(x) or not _is_it(y):
         return ENV_PASS
     return _owned([AggV((p, q), "(?, ?)") for p, q in zip(_rest(ex, x), _rest(ex, y))])
 
+
+
+def _it_filter_map(ex, c, a, d):
+    """Iterator::filter_map over a list iterator: the closure is run per item; an Option with a symbolic discriminant forks the path"""
+    from .exec import ENV_PASS
+    it = deref(ex, a[0])
+    if not _is_it(it):
+        return ENV_PASS
+    out = []
+    for x in _rest(ex, it):
+        r = ex.call_value(ex.top_frame, a[1], [x], "Option<?>")
+        if not isinstance(r, EnumV):
+            return ENV_PASS
+        some = r.disc == 1 if isinstance(r.disc, int) else ex.decide(T.eq(r.disc, 1))
+        if some:
+            out.append(r.payload(1)[0])
+    return _owned(out)
+
+
+def _it_map(ex, c, a, d):
+    from .exec import ENV_PASS
+    it = deref(ex, a[0])
+    if not _is_it(it):
+        return ENV_PASS
+    return _owned([ex.call_value(ex.top_frame, a[1], [x], "?") for x in _rest(ex, it)])
+
+
+def _it_collect(ex, c, a, d):
+    from .exec import ENV_PASS, ListV
+    it = deref(ex, a[0])
+    if not _is_it(it) or "Vec<" not in c:
+        return ENV_PASS
+    items = _rest(ex, it)
+    if it.ty == "ListIterRef":
+        return ENV_PASS
+    return ListV(tuple(items), d or "Vec<?>")
+
+
+def _slice_iter(ex, c, a, d):
+    from .exec import ENV_PASS, ListV
+    l = deref(ex, a[0])
+    if not isinstance(l, ListV):
+        return ENV_PASS
+    return AggV((l, IntV(0, "usize")), "ListIterRef")
+
+
+def _vec_into_iter(ex, c, a, d):
+    from .exec import ENV_PASS, ListV
+    l = deref(ex, a[0])
+    if isinstance(l, ListV):
+        return AggV((l, IntV(0, "usize")), "ListIter" if not isinstance(a[0], RefV) else "ListIterRef")
+    return ENV_PASS
+
+
+LIST_ADAPTORS2 = [
+    (rx(r" as (?:std::iter::|core::iter::)?Iterator>::filter_map::<"), _it_filter_map),
+    (rx(r" as (?:std::iter::|core::iter::)?Iterator>::map::<"), _it_map),
+    (rx(r" as (?:std::iter::|core::iter::)?Iterator>::collect::<"), _it_collect),
+    (rx(r"^core::slice::<impl \[.*\]>::iter$"), _slice_iter),
+    (rx(r"^<(?:std::vec::|alloc::vec::)?Vec<.*> as (?:std::iter::|core::iter::)?IntoIterator>::into_iter$|^<&(?:'\w+ )?(?:mut )?\[.*\] as (?:std::iter::|core::iter::)?IntoIterator>::into_iter$"), _vec_into_iter),
+]
 
 LIST_ADAPTORS = [
     (rx(r"VecDeque::<.*>::len$"), _vd_len),
@@ -290,4 +354,4 @@ LIST_ADAPTORS = [
     (rx(r" as (?:std::iter::|core::iter::)?Iterator>::take$"), _it_take),
     (rx(r" as (?:std::iter::|core::iter::)?Iterator>::skip$"), _it_skip),
     (rx(r" as (?:std::iter::|core::iter::)?Iterator>::zip::<"), _it_zip),
-] + LIST_ITER
+] + LIST_ADAPTORS2 + LIST_ITER
